@@ -156,8 +156,36 @@ func hasProp(props []string, p string) bool {
 func (e *Engine) VerifyFunc(fc *FuncContract) *FuncResult {
 	res := &FuncResult{Func: shortFuncName(fc.Key), Key: fc.Key, Props: fc.Props, Trusted: fc.Trusted || fc.Assumed || fc.FnType}
 	fn := e.funcs[fc.Key]
-	if fc.Trusted || fc.Assumed || fc.FnType {
+	// A trusted contract may still carry at_call clauses: its requires / assigns / ensures stay trusted (callers use
+	// them as before), but the body is walked and the call-site assertions - and only those - become obligations,
+	// with callee preconditions and panic sites assumed. This pins an ordering or an argument inside a function
+	// whose full frame is out of reach (DESIGN 2.9).
+	trustedCalls := fc.Trusted && len(fc.AtCalls) > 0 && fn != nil && fn.Blocks != nil
+	if (fc.Trusted && !trustedCalls) || fc.Assumed || fc.FnType {
 		return res
+	}
+	if trustedCalls {
+		cp := *fc
+		cp.Trusted = false
+		cp.NoPanic = false
+		cp.MayPanic = true
+		cp.Ensures = nil
+		cp.EnsuresAlways = nil
+		cp.HasAssigns = false
+		cp.Assigns = nil
+		cp.Terminates = false
+		fc = &cp
+		res.Trusted = false
+		defer func() {
+			var keep []*Obligation
+			for _, o := range res.Obls {
+				if o.Kind == "at-call" || o.Kind == "at-call-always" {
+					keep = append(keep, o)
+				}
+			}
+			res.Obls = keep
+			res.Abstr = append(res.Abstr, fn.Name()+": trusted contract; the body is walked for its call-site assertions only (callee preconditions and panic sites assumed)")
+		}()
 	}
 	if fn == nil {
 		res.Errs = append(res.Errs, fmt.Sprintf("contract target %s not found in the code (renamed or removed?)", fc.Key))
